@@ -14,8 +14,10 @@ LEVEL = "model_checking"
 NAMES3 = {"A": [0, 1, 2], "B": [0, 2, 1], "C": [2, 1, 0]}           # B <-> C needs two hops on a 2-D process grid
 NAMES4 = {"A": [0, 3, 1, 2], "B": [0, 2, 1, 3], "C": [3, 2, 1, 0]}     # the driver's flux_surface / v_parallel / poloidal
 # five layouts on a 2x2 grid in which A <-> B needs three hops (odd multi-hop route with the spare buffer)
+# the driver's potential grid: 2-D group {A: v_parallel_2d, B: mode_solve}, single-direction groups {C: v_parallel_1d}, {D: poloidal}
+NAMESG = {"A": [0, 2, 1], "B": [1, 2, 0], "C": [0, 2, 1], "D": [2, 1, 0]}
 NAMES5 = {"A": [0, 1, 2, 3], "C": [0, 3, 2, 1], "D": [1, 3, 2, 0], "E": [1, 3, 0, 2], "B": [1, 2, 3, 0]}
-CONFIGS = [([4, 3, 5, 4], [2, 2], NAMES5), ([4, 5, 6], [2, 2], NAMES3), ([3, 4, 5], [1, 1], NAMES3), ([5, 4, 6], [2, 1], NAMES3), ([4, 6, 5], [1, 2], NAMES3),
+CONFIGS = [([4, 3, 5, 4], [2, 2], NAMES5), ([4, 6, 5], [2, 2], NAMESG), ([5, 6, 6], [2, 3], NAMESG), ([4, 5, 6], [2, 2], NAMES3), ([3, 4, 5], [1, 1], NAMES3), ([5, 4, 6], [2, 1], NAMES3), ([4, 6, 5], [1, 2], NAMES3),
            ([6, 5, 7], [3, 2], NAMES3), ([4, 4, 5, 6], [2, 2], NAMES4), ([3, 5, 4, 6], [1, 3], NAMES4), ([5, 4, 4, 5], [2, 1], NAMES4)]
 
 
@@ -34,21 +36,28 @@ def grid_job(comm, shape, nprocs, layouts, hassave, dtype, histories, out, swapp
     rk = comm.Get_rank()
     nd = len(shape)
     eta = sl.make_eta(shape)
-    if swapper:
+    if swapper == "groups":
+        # the driver's potential grid: a 2-D group and two single-direction groups joined by a LayoutSwapper
+        from pygyro.model.layout import LayoutSwapper
+        grp = [{"A": layouts["A"], "B": layouts["B"]}, {"C": layouts["C"]}, {"D": layouts["D"]}]
+        h = LayoutSwapper(comm, grp, [list(nprocs), nprocs[0], nprocs[1]], eta, "B")
+    elif swapper:
         from pygyro.model.layout import LayoutSwapper
         h = LayoutSwapper(comm, [layouts], [list(nprocs)], eta, list(layouts)[0])
     else:
         h, _ = sl.handler_job(comm, shape, nprocs, layouts)
     P = list(nprocs) + [1] * (nd - len(nprocs))
     for hi, hist in enumerate(histories):
+        P = None
         l0 = hist[0]["lay"]
         g = Grid(eta, [None] * nd, h, l0, comm, dtype=dtype, allocateSaveMemory=hassave)
         for a in getattr(g, "_my_data", []):
             a[:] = sl.sentinel(dtype)
         lay = g.getLayout(l0)
-        rc = [int(x) for x in lay.ranks]
         g.getAllData()[:] = sl.local_block(sl.tokens(shape, dtype, 0), lay)
-        ev = [{"k": "reset", "sh": list(shape), "P": P, "rc": rc, "lays": {n: [d + 1 for d in o] for n, o in layouts.items()},
+        # process vector and rank coordinates of this rank in every layout (they differ between the groups of a swapper)
+        PR = {n: {"P": [int(x) for x in g.getLayout(n).nprocs], "rc": [int(x) for x in g.getLayout(n).ranks]} for n in layouts}
+        ev = [{"k": "reset", "sh": list(shape), "PR": PR, "lays": {n: [d + 1 for d in o] for n, o in layouts.items()},
                "l0": l0, "block": sl.decode(g.getAllData()).tolist(), "hist": hi}]
         out[rk].append(ev)
         nextver = 1
@@ -134,7 +143,7 @@ def run(ctx):
         if quick:
             hists = hists[:1500 if hs else 300]
         nrand = 40 if quick else 600
-        hists += [random_history(rng, rng.randint(10, 40), ["A", "B", "C"]) for _ in range(nrand)]
+        randoms = nrand
         hists.append(DRIVER)
         # spread histories over configurations
         jobs = []
@@ -144,13 +153,15 @@ def run(ctx):
         per.setdefault(0, []).append(DRIVER)
         for ci, hl in per.items():
             shape, nprocs, layouts = CONFIGS[ci]
+            # seeded random histories over ALL layout names of this configuration
+            hl = hl + [random_history(rng, rng.randint(10, 40), sorted(layouts)) for _ in range(max(2, randoms // len(CONFIGS)))]
             for dtype in (float, complex):
                 sub = hl[0::2] if dtype is float else hl[1::2]
-                if ci == 6:
+                if ci == 8:
                     sub = sub + [DRIVER]
                 if not sub:
                     continue
-                swapper = (ci % 3 == 0 and ci > 0)
+                swapper = "groups" if layouts is NAMESG else (ci % 3 == 2 and ci > 2)
                 n = int(np.prod(nprocs))
                 out = [[] for _ in range(n)]
                 res = MPI.run(n, grid_job, policy=rng.choice(["asc", "desc", "random", "rr"]), seed=rng.randint(0, 10 ** 6),
